@@ -148,7 +148,7 @@ def R3_predicates(ctx):
                 ctx.check(val == ("const", "bool", False), "QueryRuntimeLimit:not-due", "between scheduled checks the predicate is not `false`: %s" % short(r.ret), b.where(), detail=short(val))
         elif v == "Combined":
             t = r.ret
-            ok = t[0] == "call" and t[1].endswith("Iterator::try_fold") and t[2][1] == ("const", "bool", False) and t[2][0][0] == "call" and t[2][0][2] == (fld("models"),) and t[2][2][0] == "closure"
+            ok = t[0] == "call" and itm(t[1], "try_fold") and t[2][1] == ("const", "bool", False) and t[2][0][0] == "call" and t[2][0][2] == (fld("models"),) and t[2][2][0] == "closure"
             ctx.check(ok, "Combined:fold", "Combined is not a fold over all inner models seeded with false: %s" % short(t), b.where(), detail=short(t))
             if ok:
                 cl = F.need(t[2][2][1])
